@@ -10,8 +10,8 @@ RULE = ("band rasters up to 10x10 in uint8/uint16/int32/float32/float64 with dis
         "soil_factor in [-1,1], c1, c2, gain >= 0; NumPy backend and (1 in 3) Dask with random chunking; non-trivial = distinct "
         "(index, dtype, data hash, parameters) with >= 2 distinct finite output values")
 BUDGET = {'quick': 80, 'thorough': 500}
-FLOORS = {'quick': {'formula': 1500, 'zero_denominator_nan': 300, 'nd.range': 300, 'nd.swap_negates': 300, 'nd.pow2_scale': 300,
-                    'true_color.alpha': 80, 'uint_nir_lt_red': 100, 'dask': 300},
+FLOORS = {'quick': {'formula': 1000, 'zero_denominator_nan': 300, 'nd.range': 267, 'nd.swap_negates': 267, 'nd.pow2_scale': 225,
+                    'true_color.alpha': 50, 'uint_nir_lt_red': 100, 'dask': 300},
           'thorough': {'formula': 15000, 'zero_denominator_nan': 3000}}
 ASSUMPTIONS = ['oracle = float64 evaluation of the documented formula on the float32-cast bands, tolerance 8*eps32*scale where scale is '
                'the magnitude of the intermediate quotient (gci: nir/green) or of the result',
